@@ -16,8 +16,21 @@ package ply
 // binary.Read) must be consumed (mustuse.*); small decoders: no crash on a short record, for ANY token slice.
 //@ func MeshReader.Read frameonly
 //@   props C14
-//@ func readAsciiFaceElement frameonly
-//@   props C14
+//@ func readAsciiFaceElement claimonly
+//@   props C14 C08
+//@   modifies *
+//@   loop 2:
+//@     invariant buffers_are_separate: len(indicesBuf) == 4 && len(texBuf) == 8 && ref(indices) != ref(indicesBuf) && fresh(indicesBuf) && fresh(texBuf) && fresh(uvs)
+//@     step [C08] blank_lines_add_nothing: line == "" ==> len(indices) == prev(len(indices)) && len(uvs) == prev(len(uvs)) && i == prev(i)
+//@     step [C08] triangle_then_quad_fan: line != "" ==> (let p = prev(len(indices)) in
+//@         (points == 3 ==> len(indices) == p + 3) && (points == 4 ==> len(indices) == p + 6) &&
+//@         indices[p] == indicesBuf[0] && indices[p + 1] == indicesBuf[1] && indices[p + 2] == indicesBuf[2] &&
+//@         (points == 4 ==> indices[p + 3] == indicesBuf[0] && indices[p + 4] == indicesBuf[2] && indices[p + 5] == indicesBuf[3]))
+//@     step [C08] texture_coordinates_follow_the_same_fan: line != "" && texCordProp > -1 ==> (let q = prev(len(uvs)) in
+//@         (points == 3 ==> len(uvs) == q + 3) && (points == 4 ==> len(uvs) == q + 6) &&
+//@         uvs[q].X() == texBuf[0] && uvs[q].Y() == texBuf[1] && uvs[q + 1].X() == texBuf[2] && uvs[q + 1].Y() == texBuf[3] && uvs[q + 2].X() == texBuf[4] && uvs[q + 2].Y() == texBuf[5] &&
+//@         (points == 4 ==> uvs[q + 3].X() == texBuf[0] && uvs[q + 3].Y() == texBuf[1] && uvs[q + 4].X() == texBuf[4] && uvs[q + 4].Y() == texBuf[5] && uvs[q + 5].X() == texBuf[6] && uvs[q + 5].Y() == texBuf[7]))
+//@     step [C08] one_face_per_record: line != "" ==> i == prev(i) + 1
 //@ func readBinaryFaceElement claimonly
 //@   props C14 C08
 //@   modifies *
